@@ -181,12 +181,25 @@ fn core_case(cx: &mut Ctx, alg_i: usize, variant: u64, t: &[u8], pats: &[Vec<u8>
     };
     if alg == Alg::Adaptive { cx.sum.dist(&format!("adaptive_resolves_to_{}", ALGS[alg_index(resolved)].1)); }
     // three entry points for the same construction
+    #[cfg(zipora_verif)]
+    if resolved == Alg::SAIS { zipora::algorithms::suffix_array::verif_trace::start(); }
     let built = guarded(|| match (variant, alg) {
         (0, Alg::Adaptive) => SuffixArray::new(t),
         (0, Alg::DivSufSort) | (1, Alg::SAIS) => { let b = SuffixArrayBuilder::new(cfg.clone()); b.execute(&cfg, t.to_vec()) }
         (0, Alg::LarssonSadakane) | (1, Alg::DC3) => SuffixArrayBuilder::new(cfg.clone()).build(t),
         _ => SuffixArray::with_config(t, &cfg),
     });
+    #[cfg(zipora_verif)]
+    let trace: Option<String> = if resolved == Alg::SAIS {
+        let lv = zipora::algorithms::suffix_array::verif_trace::take();
+        let n_list = |v: &[usize]| coq_n_list(v.iter().map(|&x| x as u128));
+        Some(format!("[{}]", lv.iter().map(|l| format!("[{}; {}; {}; {}; {}]",
+            n_list(&[l.depth, l.n, l.alphabet_size, l.num_names, l.recursed as usize]),
+            n_list(&l.suffix_types.iter().map(|&b| b as usize).collect::<Vec<_>>()),
+            n_list(&l.lms_suffixes), n_list(&l.first_pass), n_list(&l.lms_names))).collect::<Vec<_>>().join("; ")))
+    } else { None };
+    #[cfg(not(zipora_verif))]
+    let trace: Option<String> = None;
     let class = sais_class(resolved);
     let sa_obj = match built {
         Err(m) => { cx.sum.fail(&cell, class, cj, &format!("construction panicked: {}", m)); return; }
@@ -240,7 +253,8 @@ fn core_case(cx: &mut Ctx, alg_i: usize, variant: u64, t: &[u8], pats: &[Vec<u8>
     if resolved == Alg::SAIS && n >= 2 && n <= 300 { cx.sais_seen += 1; }
     if resolved == Alg::SAIS && n >= 2 && n <= 300 && (force_coq || (cx.sais_seen % cx.sais_stride == 0 && cx.sais_coq < cx.sais_coq_budget)) {
         cx.sais_coq += 1;
-        let term = format!("Sais {} {} {}", coq_bool(cfg.optimize_small_alphabet), coq_bytes(t), coq_n_list(sa.iter().map(|&x| x as u128)));
+        let term = format!("Sais {} {} {} {}", coq_bool(cfg.optimize_small_alphabet), coq_bytes(t), coq_n_list(sa.iter().map(|&x| x as u128)),
+            trace.clone().unwrap_or_else(|| "[]".to_string()));
         cx.shards.push(term, cj.clone());
     }
     push_coq(cx, alg_i, cfg.adaptive_threshold, alg_index(resolved), t, &obs, &cj, force_coq);
